@@ -417,6 +417,12 @@ func (st *rawState) frame(i int) ([]byte, string) {
 	f.dstPort = uint16(st.bound.Port)
 	if st.bound.IP != nil {
 		copy(f.dstIP[:], st.bound.IP.To4())
+		if t.Coin(1, 8) {
+			// a bound address is set: a frame to the limited broadcast address (or the all-zero
+			// one) on the bound port is not addressed to it
+			f.dstIP = [][4]byte{{255, 255, 255, 255}, {0, 0, 0, 0}, {10, 0, 0, 255}}[t.Choose(3)]
+			s.Fault("frame-broadcast-while-address-bound")
+		}
 	} else {
 		f.dstIP = [4]byte{255, 255, 255, 255}
 		if t.Coin(1, 3) {
